@@ -46,6 +46,11 @@ def open_verdict(chain):
 
 
 def run(ctx):
+    open_rules(ctx)
+    rest_rules(ctx)
+
+
+def open_rules(ctx):
     n_create = n_chain = 0
     for fv in ctx.all_views():
         k_in = 0
@@ -75,6 +80,9 @@ def run(ctx):
         ctx.fail("C17.T", "write_opens:floor", "expected the 9 confirmed open-for-write sites (8 File::create + the mapped "
                  "file), found %d" % (n_create + n_chain))
     c14.mmap_open_rule_as(ctx, "C17.M")
+
+
+def rest_rules(ctx):
     # G
     fc, fm = ctx.need("C17.G", c07.CHUNK), ctx.need("C17.G", c07.MERGE)
     if fc is not None and fm is not None:
